@@ -117,6 +117,22 @@ TIED = {
     "C20": "TRANSLATOR-TIED: tinterpolate source proved equal to the model (scatter, ws2d through gen_ws2d_eq_model, run means).",
 }
 
+# accessor layer: control logic translated by harness/py2lean_glue*.py (library calls = parameters matched with their full literal text) and proved equal to decision models
+ACC_TIED = {
+    "C02": "ACCESSOR-TIED: WhittakerSmoother.whits translated (Gen/GlueWhits.lean) and proved equal to the decision table whitsPlan: nodata travels unchanged in the slot after lambda (GenGlueWhits).",
+    "C03": "ACCESSOR-TIED: whits: sg wins over s, lambda = 10**sg, any given p (also 0.0) selects ws2dpgu else ws2dgu, argument slots, exceptions (gen_whits_eq_plan and corollaries).",
+    "C04": "ACCESSOR-TIED: whitsvc: lc -> ws2doptvplc(nodata, p, lc) whatever srange, lc without p / neither lc nor srange -> ValueError, every truthy p (0.5 too) -> ws2doptvp, p = 0.0 or None -> ws2doptv (Python truthiness translated, gen_whitsvc_p_zero_symmetric), sgrid = float32(log10(lambda)) (GenGlueWhitsvc).",
+    "C05": "ACCESSOR-TIED: whitswcv: default grid np.arange(-1.8, 4.2, 0.2) in both branches, truthy p -> ws2dwcvp(nodata, p, srange, robust) else ws2dwcv(nodata, srange, robust), robust default True (GenGlueWhitswcv).",
+    "C10": "ACCESSOR-TIED: mktrend: kernel chosen by the nodata attribute (is None, not truthiness), output dtypes float32 x3 + int8, names tau/pvalue/slope/trend in order, trend nodata -2 (GenGlueMktrend).",
+    "C11": "ACCESSOR-TIED: the .dekad accessor (Period / DekadPeriod / AccessorTimeBase) translated over the GENERATED Dekad class and proved equal, on every axis of valid instants, to a declarative spec from (year, month, day): idx, yidx, raw, label, linspace = yidx - 1 in 0..35, start <= t <= end, ndays = span, label parses back, equal labels iff same dekad; constructor decision table; Anomalies ratio / diff (GenGluePeriod, GenGlueAnomalies).",
+    "C12": "ACCESSOR-TIED: zonal.mean: dask and eager branches call do_mean with the same five arguments and out_dtype; the dask key carries tokenize(data, zones, dtype) iff a name is given (GenGlueZonalMean).",
+    "C15": "ACCESSOR-TIED: the (y,x,t) and (t,y,x) wrapper kernels autocorr / autocorr_tyx proved per pixel equal to the model on the pixel's series, pixel-local, tyx = yxt of the transposed cube (GenNumACYxt, GenNumACTyx); accessor dispatch (dims[0] == 'time', rechunk iff several time chunks, float32, nodata attribute is None test) (GenGlueAutocorrAcc).",
+    "C16": "ACCESSOR-TIED: zonal.mean: four validation errors in order, NaN -> nodata before the kernel, num_zones = len(zone_ids), dims (first dim, dim_name, 'stat'), stat = ['mean','valid'] (GenGlueZonalMean).",
+    "C17": "ACCESSOR-TIED: rolling.sum: nodata argument wins over the attribute (is None tests: 0 is a valid nodata), neither -> ValueError, kernel slots (window, nodata), trim of exactly window-1 leading cells (GenGlueRollingSumAcc).",
+    "C18": "ACCESSOR-TIED: croo: the xarray pipeline (sortby descending, where == 1, cumsum skipna=False, where notnull else 0, argmax, + first) translated onto list-level semantics of xarray (Hdc/PyXr.lean, validated against xarray on every run) and proved equal to the model croo for every non-empty series, hence the trailing run of ones (GenGlueCroo); lroo accessor call (GenGlueLrooAcc).",
+    "C20": "ACCESSOR-TIED: whitint: dtype other than int16 -> NotImplementedError, output length = number of distinct labels, template_out u1, output int16 (GenGlueWhitint).",
+}
+
 
 def main():
     checks = []
@@ -131,6 +147,10 @@ def main():
             note = note.replace("the hand-written Lean model of the kernel (tied to /repo by the correspondence run of this check on every invocation)",
                                 "the hand-written Lean model of the kernel (tied to /repo by the correspondence run of this check on every invocation and, for the translated kernels, "
                                 "by a refinement theorem about the program the translator regenerates from the source on every run; the translators harness/py2lean*.py, translate_ws2d.py are trusted)")
+        if pid in ACC_TIED:
+            text = text + " " + ACC_TIED[pid]
+            if "accessor control logic" not in tech:
+                tech = tech + " + accessor control logic translated and proved equal to a decision model"
         checks.append(dict(
             property_id=pid,
             quick_cmd=f"bin/check {pid} --tier quick",
